@@ -488,6 +488,12 @@ CatalogFragment::CatalogFragment(DFS::Format format,
       }
     for (const auto& entry : entries())
       {
+	if (entry.file_length() == 0)
+	  {
+	    // This file occupies no sectors.  Its start sector
+	    // normally belongs to the file which was saved next.
+	    continue;
+	  }
 	ParsedFileName file_name;
 	file_name.vol = vol;
 	file_name.dir = entry.directory();
